@@ -90,6 +90,22 @@ CHECKS["C10"] = dict(
     note=OTHER_NOTE + " The arithmetic primitives themselves (arkworks Fp<MontBackend>, the Coq-proved fiat-crypto bodies) are trusted and NOT analysed; mutations inside fiat.rs are out of reach.",
     design="DESIGN.md §4 C10")
 
+CHECKS["C07"] = dict(
+    technique="static: TERM conformance of elligator_map with the specification's optimised Elligator 2 routine (canonical polynomial forms, projective comparison), forwarding of encode_to_curve / hash_to_curve, constants",
+    category="other",
+    text="NECESSARY PART ONLY: decides that each build's one-input map is, as a function of r0 (both ISQRT branches and both signs at once), the published optimised Elligator 2 routine "
+         "as a projective point, and that the public forms forward to it (two-input hash = group sum of two maps). That the optimised routine equals unoptimised Elligator 2, the "
+         "r0 -> -r0 symmetry and output validity are algebraic facts about square roots that are not visible in the code's shape and are NOT decided.",
+    note=OTHER_NOTE + " Trusted: spec/decaf_spec.py transcription; ISQRT contract (C09); group addition (C04).", design="DESIGN.md §4 C07")
+CHECKS["C09"] = dict(
+    technique="static: structural necessary conditions only - zero-case return flows, mask-below-length index rule, window/shift/pow-chain integer facts, table-filling loop summaries, constant folding of the Lazy statics, Euler split and constant-time Tonelli-Shanks loop template, Field::legendre shape",
+    category="other",
+    text="LARGELY NOT APPLICABLE to static analysis: that the routines return a correct root and flag for every (num, den), and that no HashMap lookup misses, is number theory over "
+         "data-dependent table walks and is NOT decided. Decided are necessary conditions that realistic edits break while the 10000-case proptest keeps passing: the two zero cases in "
+         "order, every table index masked below the table length (22 sites), digit shifts / pow chain telescoping to N = 47, the six tables and s_lookup filled for all 256 digits with the "
+         "right exponents, the derived constants, the Euler split and CT Tonelli-Shanks template of the minimal backend, legendre = zero test + Euler.",
+    note=OTHER_NOTE + " The contract itself is listed as undecided in the evidence assumptions.", design="DESIGN.md §4 C09, §6")
+
 NOT_APPLICABLE = {}
 
 PENDING = {}  # property -> reason, for properties whose check is not built yet
